@@ -1,5 +1,6 @@
 import LassoProofs.C02
 import LassoModel.Extracted
+import LassoProofs.Lemmas.Config
 /-
   C07 — failed interning changes nothing; exhaustion is reported exactly at capacity.
 
@@ -130,5 +131,12 @@ theorem rodeo_failures_precede_mutation :
     Extracted.rodeoInternEffects = [.hashOne, .probe, .keyCheck, .store, .stringsPush, .tableInsert] ∧
     Extracted.rodeoInternStaticEffects = [.hashOne, .probe, .keyCheck, .stringsPush, .tableInsert] := by
   decide
+
+/-- The code this file's theorems are about is the same under every feature configuration: the regenerated
+census of conditional compilation contains import blocks, whole serde impls, optional-dependency impls and
+module declarations only, and no gate inside any function body (`Lemmas/Config.lean`). -/
+theorem same_code_under_every_feature_configuration :
+    (Extracted.cfgGates.all fun g => g.kind != .other) = true ∧ Extracted.bodyGates.isEmpty = true :=
+  Lasso.one_code_base_for_all_configurations
 
 end Lasso.C07
